@@ -1,9 +1,99 @@
 import LinfaSpec.Model.Proto
+import LinfaSpec.Model.Scalar
+import LinfaSpec.Model.LeastSquares
 
 namespace LinfaSpec.Drv.C11
-open LinfaSpec.Proto
+open LinfaSpec.Proto LinfaSpec.LeastSquares
 
-/-- stub: replaced when the property's model lands -/
-def handle (_toks : List String) : String := "bad-op"
+/-- `f64::EPSILON`, the default tolerance of `abs_diff_eq!` -/
+def eps64 : Float := Float.ofBits 0x3CB0000000000000
+
+/-- `-0.0` and `+0.0` are written alike (the sign of a zero is not modelled) -/
+def canon (x : Float) : Float := x + 0.0
+def sh (x : Float) : String := showF64c (canon x)
+def shT (x : Float) : String := "~" ++ showF64c (canon x)
+
+def colsOfRows (p : Nat) (rows : List (List Float)) : List (List Float) :=
+  (List.range p).map fun j => rows.map fun row => row.getD j 0
+
+/-- rows must be rectangular and non-empty, `p ≥ 1` -/
+def parseX (toks : List String) : Option (Nat × Nat × List (List Float)) := do
+  let rows ← argF64s2 toks "X"
+  let n := rows.length
+  let p := (rows.headD []).length
+  if n = 0 ∨ p = 0 ∨ rows.any (fun r => r.length != p) then none
+  else some (n, p, colsOfRows p rows)
+
+def handleGap (toks : List String) : Option String := do
+  let (n, p, C) ← parseX toks
+  let y ← argF64s toks "y"; let w ← argF64s toks "w"; let r ← argF64s toks "r"
+  let l1r ← argF64 toks "l1r"; let pen ← argF64 toks "pen"
+  if y.length != n ∨ r.length != n ∨ w.length != p then none else
+  some ("ok " ++ sh (dualityGap (p == 1) C y w r l1r pen (Float.ofNat n)))
+
+def handleCd (toks : List String) : Option String := do
+  let (n, p, C) ← parseX toks
+  let y ← argF64s toks "y"
+  let tol ← argF64 toks "tol"; let mx ← argNat toks "max"
+  let l1r ← argF64 toks "l1r"; let pen ← argF64 toks "pen"
+  if y.length != n then none else
+  let (w, g, s) := coordinateDescent (p == 1) eps64 C y (Float.ofNat n) tol mx l1r pen
+  some s!"ok w={showList sh w} gap={sh g} steps={s}"
+
+def handleFit (toks : List String) : Option String := do
+  let (n, p, C) ← parseX toks
+  let y ← argF64s toks "y"
+  let tol ← argF64 toks "tol"; let mx ← argNat toks "max"
+  let l1r ← argF64 toks "l1r"; let pen ← argF64 toks "pen"
+  let ic ← argNat toks "icpt"
+  if y.length != n ∨ ic > 1 then none else
+  let (b, w, g, s) := fitEnet (p == 1) eps64 C y (Float.ofNat n) tol mx l1r pen (ic == 1)
+  some s!"ok b={sh b} w={showList sh w} gap={sh g} steps={s}"
+
+def handleObj (toks : List String) : Option String := do
+  let (n, p, C) ← parseX toks
+  let y ← argF64s toks "y"; let w ← argF64s toks "w"; let b ← argF64 toks "b"
+  let l1r ← argF64 toks "l1r"; let pen ← argF64 toks "pen"
+  if y.length != n ∨ w.length != p then none else
+  some s!"ok obj={sh (objective C y w b l1r pen (Float.ofNat n))} sse={sh (sse C y w b)}"
+
+def handleBst (toks : List String) : Option String := do
+  let x ← argF64s toks "x"; let thr ← argF64 toks "thr"
+  some ("ok " ++ showList sh (blockSoft x thr))
+
+def rect (rows : List (List Float)) (n t : Nat) : Bool :=
+  rows.length == n && rows.all (fun r => r.length == t)
+
+def handleGapM (toks : List String) : Option String := do
+  let (n, p, C) ← parseX toks
+  let t ← argNat toks "t"
+  let Y ← argF64s2 toks "Y"; let W ← argF64s2 toks "W"; let R ← argF64s2 toks "R"
+  let l1r ← argF64 toks "l1r"; let pen ← argF64 toks "pen"
+  if t = 0 ∨ !rect Y n t ∨ !rect R n t ∨ !rect W p t then none else
+  some ("ok " ++ shT (dualityGapMtl t C Y W R l1r pen (Float.ofNat n)))
+
+def handleBcd (toks : List String) : Option String := do
+  let (n, p, C) ← parseX toks
+  let t ← argNat toks "t"
+  let Y ← argF64s2 toks "Y"
+  let tol ← argF64 toks "tol"; let mx ← argNat toks "max"
+  let l1r ← argF64 toks "l1r"; let pen ← argF64 toks "pen"
+  if t = 0 ∨ !rect Y n t then none else
+  let (w, g, s) := blockCoordinateDescent (p == 1) t eps64 C Y (Float.ofNat n) tol mx l1r pen
+  -- l1 = 0: the gap is a float tie after a tolerance-compared descent (see harness), not printed
+  let gs := if l1r * pen == 0.0 then "-" else shT g
+  some s!"ok w={showList2 shT w} gap={gs} steps={s}"
+
+def handle (toks : List String) : String :=
+  let r := match toks with
+    | "gap" :: rest => handleGap rest
+    | "cd" :: rest => handleCd rest
+    | "fit" :: rest => handleFit rest
+    | "obj" :: rest => handleObj rest
+    | "bst" :: rest => handleBst rest
+    | "gapm" :: rest => handleGapM rest
+    | "bcd" :: rest => handleBcd rest
+    | _ => none
+  r.getD "bad-op"
 
 end LinfaSpec.Drv.C11
